@@ -46,7 +46,8 @@ def applyCall (w : Nat → Nat) (L : Nat) (partsOf partsOfSrc : Nat → List Nat
       (partsOf tgt).foldl (fun s p => s.addR p ws) s
   | .p2pInner leaf =>
       let ps := partsOf leaf
-      ps.foldl (fun s p => s.addR p (sumW w ps - w p)) s
+      let tot := sumW w ps
+      ps.foldl (fun s p => s.addR p (tot - w p)) s
 
 def applyCalls (w : Nat → Nat) (L : Nat) (partsOf partsOfSrc : Nat → List Nat) (s : State) (cs : List Call) : State :=
   cs.foldl (applyCall w L partsOf partsOfSrc) s
